@@ -46,6 +46,7 @@ type Session struct {
 	Unsup    string // non-empty: function is outside the subset (reason)
 	Trusted  bool
 	usesQuant bool
+	ReplayStr *StrV // the input buffer (pre-state) for counterexample replay
 }
 
 func NewSession(fn string) *Session {
